@@ -13,6 +13,7 @@ import io
 import contextlib
 import numpy
 from qrv import tensors
+from qrv.build import r3
 
 LEVEL = "exploration"
 RULE = ("aggregates of 2-4 sites (thorough 2-5; time-dependent tensors 2-3 resp. 2-4), energies 10000-16000 1/cm with spreads 0-600, couplings 5-300 1/cm incl. "
@@ -38,6 +39,20 @@ def gen_cases(tier, rng):
             c["cls"] = label
             c["cost"] = (N + 1) ** 4 / 100.0 * (c["sys"]["Nt"] / 50.0 if "TD" in label else 3.0)
             cases.append(c)
+    # symmetric rings (exactly degenerate exciton levels, mixing eigenvectors) for every secular configuration, in every run
+    for label in [l for l in tensors.ALL_LABELS if "sec" in l]:
+        for _try in range(50):
+            c = tensors.gen_case(rng, label, "thorough", nmax=3)
+            if c["sys"]["N"] == 3:
+                break
+        j0 = r3(rng.uniform(40.0, 160.0))
+        c["sys"]["E"] = [c["sys"]["E"][0]] * 3
+        c["sys"]["J"] = [[(0.0 if a == b else float(j0)) for b in range(3)] for a in range(3)]
+        if "jcut_cm" in c:
+            c["jcut_cm"] = r3(0.5 * j0)
+        c["cls"] = label
+        c["cost"] = 4 ** 4 / 100.0 * (c["sys"]["Nt"] / 50.0 if "TD" in label else 3.0)
+        cases.append(c)
     return cases
 
 
@@ -145,7 +160,13 @@ def run_case(case, ctx):
     is_sec_cfg = "sec" in label
     w = numpy.linalg.eigvalsh(numpy.array((hsec if hsec is not None else hamR).data, dtype=float))
     degenerate = dim >= 2 and float(numpy.min(numpy.diff(w))) < 1e-9 * max(1.0, float(numpy.max(numpy.abs(w))))
-    if is_sec_cfg and not degenerate:
+    if is_sec_cfg and degenerate:
+        # degenerate levels: the twin comparison is not well defined (eigenvectors are not unique between two constructions), but the pattern is
+        # index based - everything outside R[a,a,b,b], R[a,b,a,b] is zero in the basis the library secularised in
+        scd = max(float(numpy.max(numpy.abs(Tfull))), 1e-300)
+        ctx.check("secular-others-zero", float(numpy.max(numpy.abs(Tfull[..., ~pat]))) if (~pat).any() else 0.0, 1e-13 * scd * dim * dim, dict(det, degenerate_levels=True))
+        nontriv_ns = None
+    elif is_sec_cfg and not degenerate:
         # the same inputs without secularisation
         c2 = dict(case)
         c2["label"] = label.replace("-sec", "")
